@@ -444,6 +444,8 @@ def jobs_C02(tier, seed):
              # SAFT-VR Mie with its own association term (2B methanol + inert)
              ('saftvrmie_assoc', {'kind': 'saftvrmie', 'src': src(('saftvrmie/lafitte2013.json', ['hexane', 'methanol']))}, 2, 350.0, 1000.0)]
     for name, spec, n, T, V in systems(tier, seed) + extra:
+        if tier == 'quick' and name == 'saftvrqmie_fun':
+            continue   # 6-11 min alone (12 000 nodes): thorough tier; the SAFT-VRQ Mie equation of state stays in quick
         jobs.append(('ext/' + name, {'job': 'ext', 'model': spec, 'x': state(n, T, V, seed)}, {'budget_s': 300 if tier == 'quick' else 1800, 'soft': name.endswith('~')}))
     return jobs
 
